@@ -481,9 +481,9 @@ func (g *gen) contentValue() string {
 		case 0, 1:
 			parts = append(parts, "\""+pick(r, []string{"x", "»", "long text here", "", "\\a", "a b"})+"\"")
 		case 2:
-			parts = append(parts, "counter("+pick(r, []string{"c", "d", "page", "pages", "list-item", "footnote"})+pick(r, []string{"", ", "+pick(r, counterSt)})+")")
+			parts = append(parts, "counter("+pick(r, []string{"c", "d", "page", "pages", "list-item", "footnote"})+pick(r, []string{"", ", " + pick(r, counterSt)})+")")
 		case 3:
-			parts = append(parts, "counters(c, \".\""+pick(r, []string{"", ", "+pick(r, counterSt)})+")")
+			parts = append(parts, "counters(c, \".\""+pick(r, []string{"", ", " + pick(r, counterSt)})+")")
 		case 4:
 			parts = append(parts, "attr("+pick(r, []string{"id", "class", "title", "href", "nope"})+")")
 		case 5:
@@ -703,83 +703,83 @@ func (g *gen) attrs(n *Node) {
 	r := g.r
 	if r.P(1, 3) {
 		g.ids++
-		n.Attrs = append(n.Attrs, Attr{"id", fmt.Sprintf("i%d", r.Intn(6))})
+		n.Attrs = append(n.Attrs, Attr{K: "id", V: fmt.Sprintf("i%d", r.Intn(6))})
 	}
 	if r.P(1, 2) {
-		n.Attrs = append(n.Attrs, Attr{"class", fmt.Sprintf("c%d", r.Intn(5))})
+		n.Attrs = append(n.Attrs, Attr{K: "class", V: fmt.Sprintf("c%d", r.Intn(5))})
 	}
 	if r.P(1, 20) {
-		n.Attrs = append(n.Attrs, Attr{"dir", pick(r, []string{"rtl", "ltr", "auto"})})
+		n.Attrs = append(n.Attrs, Attr{K: "dir", V: pick(r, []string{"rtl", "ltr", "auto"})})
 	}
 	if r.P(1, 20) {
-		n.Attrs = append(n.Attrs, Attr{"lang", pick(r, []string{"en", "fr", "de", "ar", "x", ""})})
+		n.Attrs = append(n.Attrs, Attr{K: "lang", V: pick(r, []string{"en", "fr", "de", "ar", "x", ""})})
 	}
 	if r.P(1, 30) {
-		n.Attrs = append(n.Attrs, Attr{"hidden", ""})
+		n.Attrs = append(n.Attrs, Attr{K: "hidden", V: ""})
 	}
 	if r.P(1, 12) {
-		n.Attrs = append(n.Attrs, Attr{pick(r, []string{"align", "width", "height", "bgcolor", "border", "cellpadding", "cellspacing", "valign", "hspace", "vspace", "nowrap", "color", "size", "face", "background", "bordercolor", "marginwidth", "topmargin", "text"}), pick(r, []string{"center", "right", "justify", "10", "50%", "0", "-3", "red", "#0f0", "abc", "", "3", "+2", "-1", "top", "middle", "1e9", "7", "Ahem"})})
+		n.Attrs = append(n.Attrs, Attr{K: pick(r, []string{"align", "width", "height", "bgcolor", "border", "cellpadding", "cellspacing", "valign", "hspace", "vspace", "nowrap", "color", "size", "face", "background", "bordercolor", "marginwidth", "topmargin", "text"}), V: pick(r, []string{"center", "right", "justify", "10", "50%", "0", "-3", "red", "#0f0", "abc", "", "3", "+2", "-1", "top", "middle", "1e9", "7", "Ahem"})})
 	}
 	switch n.Tag {
 	case "td", "th":
 		if r.P(1, 3) {
-			n.Attrs = append(n.Attrs, Attr{"colspan", pick(r, []string{"2", "3", "0", "1", "-1", "1000", "abc", "", "2.5", " 2 ", "99999999999999999999"})})
+			n.Attrs = append(n.Attrs, Attr{K: "colspan", V: pick(r, []string{"2", "3", "0", "1", "-1", "1000", "abc", "", "2.5", " 2 ", "99999999999999999999"})})
 		}
 		if r.P(1, 4) {
-			n.Attrs = append(n.Attrs, Attr{"rowspan", pick(r, []string{"2", "3", "0", "1", "-1", "65534", "abc", "70000"})})
+			n.Attrs = append(n.Attrs, Attr{K: "rowspan", V: pick(r, []string{"2", "3", "0", "1", "-1", "65534", "abc", "70000"})})
 		}
 	case "col", "colgroup":
 		if r.P(1, 2) {
-			n.Attrs = append(n.Attrs, Attr{"span", pick(r, []string{"2", "3", "0", "-1", "1000", "x"})})
+			n.Attrs = append(n.Attrs, Attr{K: "span", V: pick(r, []string{"2", "3", "0", "-1", "1000", "x"})})
 		}
 	case "ol":
 		if r.P(1, 3) {
-			n.Attrs = append(n.Attrs, Attr{"start", pick(r, []string{"5", "0", "-3", "x", "99999999999", ""})})
+			n.Attrs = append(n.Attrs, Attr{K: "start", V: pick(r, []string{"5", "0", "-3", "x", "99999999999", ""})})
 		}
 		if r.P(1, 5) {
-			n.Attrs = append(n.Attrs, Attr{"reversed", ""})
+			n.Attrs = append(n.Attrs, Attr{K: "reversed", V: ""})
 		}
 		if r.P(1, 5) {
-			n.Attrs = append(n.Attrs, Attr{"type", pick(r, []string{"a", "A", "i", "I", "1", "x"})})
+			n.Attrs = append(n.Attrs, Attr{K: "type", V: pick(r, []string{"a", "A", "i", "I", "1", "x"})})
 		}
 	case "li":
 		if r.P(1, 5) {
-			n.Attrs = append(n.Attrs, Attr{"value", pick(r, []string{"3", "-1", "x", ""})})
+			n.Attrs = append(n.Attrs, Attr{K: "value", V: pick(r, []string{"3", "-1", "x", ""})})
 		}
 	case "a":
-		n.Attrs = append(n.Attrs, Attr{"href", pick(r, []string{"#i0", "#i1", "#i2", "#nope", "#", "http://example.com/", "", "mailto:x", "#i3", "http://[bad", "%zz"})})
+		n.Attrs = append(n.Attrs, Attr{K: "href", V: pick(r, []string{"#i0", "#i1", "#i2", "#nope", "#", "http://example.com/", "", "mailto:x", "#i3", "http://[bad", "%zz"})})
 		if r.P(1, 6) {
-			n.Attrs = append(n.Attrs, Attr{"rel", "attachment"})
+			n.Attrs = append(n.Attrs, Attr{K: "rel", V: "attachment"})
 		}
 	case "img", "embed":
-		n.Attrs = append(n.Attrs, Attr{"src", g.imageURL()})
+		n.Attrs = append(n.Attrs, Attr{K: "src", V: g.imageURL()})
 		if r.P(1, 2) {
-			n.Attrs = append(n.Attrs, Attr{"alt", pick(r, []string{"alt text", "", "a"})})
+			n.Attrs = append(n.Attrs, Attr{K: "alt", V: pick(r, []string{"alt text", "", "a"})})
 		}
 	case "object":
-		n.Attrs = append(n.Attrs, Attr{"data", g.imageURL()})
+		n.Attrs = append(n.Attrs, Attr{K: "data", V: g.imageURL()})
 	case "input":
-		n.Attrs = append(n.Attrs, Attr{"type", pick(r, []string{"text", "checkbox", "radio", "submit", "hidden", "password", "number", "x", "range", "file", "image", "button"})})
+		n.Attrs = append(n.Attrs, Attr{K: "type", V: pick(r, []string{"text", "checkbox", "radio", "submit", "hidden", "password", "number", "x", "range", "file", "image", "button"})})
 		if r.P(1, 2) {
-			n.Attrs = append(n.Attrs, Attr{"value", pick(r, []string{"val", "", "a long value of an input field"})})
+			n.Attrs = append(n.Attrs, Attr{K: "value", V: pick(r, []string{"val", "", "a long value of an input field"})})
 		}
 		if r.P(1, 3) {
-			n.Attrs = append(n.Attrs, Attr{"size", pick(r, []string{"3", "0", "-1", "x", "100"})})
+			n.Attrs = append(n.Attrs, Attr{K: "size", V: pick(r, []string{"3", "0", "-1", "x", "100"})})
 		}
 		if r.P(1, 4) {
-			n.Attrs = append(n.Attrs, Attr{"checked", ""})
+			n.Attrs = append(n.Attrs, Attr{K: "checked", V: ""})
 		}
 		if r.P(1, 4) {
-			n.Attrs = append(n.Attrs, Attr{"placeholder", "ph"})
+			n.Attrs = append(n.Attrs, Attr{K: "placeholder", V: "ph"})
 		}
 	case "textarea":
 		if r.P(1, 2) {
-			n.Attrs = append(n.Attrs, Attr{"rows", pick(r, []string{"2", "0", "x"})}, Attr{"cols", pick(r, []string{"10", "0", "x"})})
+			n.Attrs = append(n.Attrs, Attr{K: "rows", V: pick(r, []string{"2", "0", "x"})}, Attr{K: "cols", V: pick(r, []string{"10", "0", "x"})})
 		}
 	case "font":
-		n.Attrs = append(n.Attrs, Attr{"size", pick(r, []string{"1", "7", "+3", "-2", "0", "x", "+", "100"})})
+		n.Attrs = append(n.Attrs, Attr{K: "size", V: pick(r, []string{"1", "7", "+3", "-2", "0", "x", "+", "100"})})
 	case "hr":
-		n.Attrs = append(n.Attrs, Attr{"size", pick(r, []string{"1", "5", "0", "x"})})
+		n.Attrs = append(n.Attrs, Attr{K: "size", V: pick(r, []string{"1", "5", "0", "x"})})
 	}
 }
 
